@@ -7,11 +7,15 @@ from wire import from_wire
 PID = "C06"
 ALPHA = ["$", "$$", "\"", "{", "}", ":", ".", "a", "b", "$merge:x", "$\"{a}\"", "$required", "$delete", "$match", "$output",
          "$env:HOME", "$repeat", "$replace", "$value", "$encode", "$decode", "$merge", "$FOO", "${X}", "$(cmd)", "$invert",
-         "$parent", "x", "", "$\"", "$a", "$A", "$1", "a$b", "$$a", "$replace:a.b", "$\"{$env:HOME}\"", "$é", "é$"]
+         "$parent", "x", "", "$\"", "$a", "$A", "$1", "a$b", "$$a", "$replace:a.b", "$\"{$env:HOME}\"", "$é", "é$",
+         # lower-case letters beyond Latin-1 after the dollar (directive-shaped for validate.go), and non-letters
+         "$оutput", "$αbc", "$ŕequired", "$ԁelete", "$日本", "$€5"]
 PLAIN = ["$FOO", "${X}", "$(cmd)", "$A", "$1", "a$b", "x", "a", "", "$", "é$", "a.b", "{a}", "\"q\"", "$ x", "$_", "$-",
          # upper/mixed-case spellings of directives are plain data like any other $NAME
          "$ENV:HOME", "$Env:HOME", "$ENV:NOSUCH", "$Env:", "$MERGE:a", "$Merge", "$Required", "$REQUIRED", "$Output", "$REPEAT", "$Delete",
-         "$Replace:a", "$Encode", "$Value", "$Match", "$Parent"]
+         "$Replace:a", "$Encode", "$Value", "$Match", "$Parent",
+         # characters of 2, 3 and 4 bytes after the dollar that are NOT lower-case letters: plain data
+         "$€5", "$日本", "$😀x", "$…", "$“q”", "$É", "$Ω", "$١", "$ x"]
 
 
 def rand_string(rng, pool):
@@ -58,8 +62,12 @@ def build_doubled(t):
 
 
 def is_plain_string(s):
-    import re
-    return "$$" not in s and not re.match(r'^\$([a-zß-öø-ÿµ]|")', s)
+    import unicodedata
+    if "$$" in s:
+        return False
+    if len(s) >= 2 and s[0] == "$":
+        return not (s[1] == '"' or unicodedata.category(s[1]) == "Ll")
+    return True
 
 
 def is_plain(v):
